@@ -520,8 +520,10 @@ class Unique(ApplyConcatApply):
 
     @functools.cached_property
     def _meta(self):
-        return self.chunk(
-            meta_nonempty(self.frame._meta), series_name=self.frame._meta.name
+        return make_meta(
+            self.chunk(
+                meta_nonempty(self.frame._meta), series_name=self.frame._meta.name
+            )
         )
 
     @property
@@ -573,7 +575,9 @@ class DropDuplicates(Unique):
 
     @functools.cached_property
     def _meta(self):
-        return self.chunk(meta_nonempty(self.frame._meta), **self.chunk_kwargs)
+        return make_meta(
+            self.chunk(meta_nonempty(self.frame._meta), **self.chunk_kwargs)
+        )
 
     @property
     def chunk_kwargs(self):
